@@ -10,11 +10,13 @@ import Driver.Seeds
 import Driver.ListView
 import Driver.Tlv
 import Driver.Resolve
+import Driver.VarLen
 
 structure DState where
   lv : Driver.LvD.St := none
   tlv : Driver.TlvD.St := none
   res : Driver.ResD.St := none
+  vl : Driver.VarLenD.St := none
 
 def stateless (toks : List String) : Option String :=
   Driver.Tok.handle toks <|> Driver.PodD.handle toks <|> Driver.DiscD.handle toks <|>
@@ -36,9 +38,13 @@ def dispatch (st : DState) (line : String) : DState × String :=
         match Driver.TlvD.handle st.tlv toks with
         | some (t', s) => ({ st with tlv := t' }, s)
         | none =>
-          match toks, st.res with
-          | ["E"], some _ => ({ st with res := none }, "end")
-          | _, _ => (st, "bad-op")
+          match Driver.VarLenD.handle st.vl toks with
+          | some (v', s) => ({ st with vl := v' }, s)
+          | none =>
+            match toks, st.res, st.vl with
+            | ["E"], some _, _ => ({ st with res := none }, "end")
+            | ["E"], _, some _ => ({ st with vl := none }, "end")
+            | _, _, _ => (st, "bad-op")
 
 partial def loop (h : IO.FS.Stream) (out : IO.FS.Stream) (st : DState) : IO Unit := do
   let line ← h.getLine
